@@ -166,6 +166,9 @@ func ParseRTSPMessage(b []byte) Item {
 	lines := strings.Split(head, "\r\n")
 	it := Item{Kind: "response", Header: map[string]string{}}
 	fmt.Sscanf(lines[0], "RTSP/1.0 %d", &it.Status)
+	if f := strings.SplitN(lines[0], " ", 3); len(f) == 3 {
+		it.Reason = f[2]
+	}
 	for _, l := range lines[1:] {
 		i := strings.IndexByte(l, ':')
 		if i <= 0 {
